@@ -82,7 +82,7 @@ def run(rep, tier):
     from . import widths
     rep.rule("C01.D2", "length arithmetic in the library keeps the full width of size_t (no zero-extended 32-bit mask)")
     for js, cname, layout, maxs, units in prep:
-        widths.rule(rep, "C01.D2", modes.load_module(js), cname)
+        widths.rule(rep, "C01.D2", modes.load_module(js), cname, files=("/src/aead/", "/src/core/"))
     widths.control(rep, "C01.D2")
 
 
